@@ -104,6 +104,106 @@ class Impl:
         return {'impl': self.name, 'r': out, 'wr': wr, 'io': [list(x) for x in tr.io], 'exc': exc}
 
 
+class Impl128:
+    """One simulator implementation on a 128K machine whose paging is fixed and LOCKED (bit 5 of 0x7FFD
+    set, so neither the C simulators nor a paging tracer can change it): the CPU sees the same Base(a)
+    pattern + overlay as on the 48K machine; `page` is the RAM bank at 0xC000, `rom` the ROM at 0."""
+
+    def __init__(self, name, cls, page, rom):
+        from skoolkit import simutils
+        from skoolkit.pagingtracer import Memory
+        assert page not in (2, 5)
+        self.name = name
+        self.page, self.rom = page, rom
+        self.o7ffd = 0x20 | (rom << 4) | page
+        banks = [[0] * 0x4000 for _ in range(8)]
+        banks[5][:] = BASE[0x4000:0x8000]
+        banks[2][:] = BASE[0x8000:0xC000]
+        banks[page][:] = BASE[0xC000:]
+        mem = Memory(banks, self.o7ffd)
+        for r in mem.roms:
+            r[:] = BASE[:0x4000]
+        self.sim = simutils.from_memory(cls, mem, None, None, {'fast_djnz': False, 'fast_ldir': False})
+        self.mem = self.sim.memory
+        self.tracer = Tracer()
+        self.otracer = OutOnlyTracer()
+        self.cur = None
+        self.touched = []
+
+    def _pages(self):
+        m = self.mem
+        return [('rom0', m.roms[0], 0), ('rom1', m.roms[1], 0)] + [('bank%d' % i, m.banks[i], i) for i in range(8)]
+
+    def run_case(self, case):
+        mem, sim = self.mem, self.sim
+        if mem.o7ffd != self.o7ffd or mem.memory[0] is not mem.roms[self.rom] or mem.memory[3] is not mem.banks[self.page]:
+            raise AssertionError('paging changed although locked')
+        for a, v in case['ov']:
+            mem[a] = v
+        regs = sim.registers
+        for i, v in enumerate(case['r']):
+            regs[i] = v
+        inv = case['inv']
+        if inv >= 0:
+            tr = self.tracer
+            tr.inv = inv
+        else:
+            tr = self.otracer
+        tr.io = []
+        if self.cur is not tr:
+            sim.set_tracer(tr)
+            self.cur = tr
+        exc = ''
+        try:
+            sim.run(case['r'][PC])
+        except Exception as e:
+            exc = '%s: %s' % (type(e).__name__, e)
+        ov = dict((a, v) for a, v in case['ov'])
+        wr = []
+        # visible address space: diff against Base + overlay
+        vis = (mem.roms[self.rom], mem.banks[5], mem.banks[2], mem.banks[self.page])
+        for q in range(4):
+            pg = vis[q]
+            exp = BASE_BYTES[q * 0x4000:(q + 1) * 0x4000]
+            if bytes(pg) != exp:
+                for x in range(0x4000):
+                    a = q * 0x4000 + x
+                    if pg[x] != ov.get(a, BASE[a]):
+                        wr.append([a, int(pg[x])])
+                    if pg[x] != BASE[a]:
+                        pg[x] = BASE[a]
+        # hidden pages must stay as they were (zeros / pattern): report as writes to addresses >= 65536
+        hidden = [(1 - self.rom, mem.roms[1 - self.rom], BASE_BYTES[:0x4000])]
+        for i in range(8):
+            if i not in (2, 5, self.page):
+                hidden.append((2 + i, mem.banks[i], None))
+        for k, pg, exp in hidden:
+            if (bytes(pg) != exp) if exp is not None else any(pg):
+                for x in range(0x4000):
+                    e = exp[x] if exp is not None else 0
+                    if pg[x] != e:
+                        wr.append([65536 + k * 0x4000 + x, int(pg[x])])
+                        pg[x] = e
+        out = [int(v) for v in regs]
+        return {'impl': self.name, 'r': out, 'wr': wr, 'io': [list(x) for x in tr.io], 'exc': exc}
+
+
+_impls128 = {}
+
+
+def impls128(page, rom):
+    """py / pycm / ccm (and c) on a 128K machine with `page` at 0xC000."""
+    key = (page, rom)
+    if key not in _impls128:
+        cbuild.preload()
+        import skoolkit
+        from skoolkit.simulator import Simulator
+        from skoolkit.cmiosimulator import CMIOSimulator
+        _impls128[key] = [Impl128('py', Simulator, page, rom), Impl128('c', skoolkit.CSimulator, page, rom),
+                          Impl128('pycm', CMIOSimulator, page, rom), Impl128('ccm', skoolkit.CCMIOSimulator, page, rom)]
+    return _impls128[key]
+
+
 _impls = None
 
 
